@@ -180,7 +180,36 @@ NAME_FORMS = ['comps', 'comps', 'comps', 'uri', 'strs', 'wire', 'wire_mv', 'mixe
 
 def name_in_form(comps, form, seed=0):
     """the same name as the caller may hand it to make_* (NonStrictName): list of encoded components, URI string,
-    list of URI-component strings, the encoded Name TLV (bytes / memoryview over a bytearray), or a mix"""
+    list of URI-component strings, the encoded Name TLV (bytes / memoryview over a bytearray), or a mix.
+    In a third of the calls the caller has ALSO used the same text / bytes with the library's public helpers for its own
+    purposes before (Name.from_str / normalize / from_bytes / Component.from_str) and has edited what it got back in
+    place - its own objects; the name it now hands over is still the name it hands over."""
+    obj = _name_in_form(comps, form, seed)
+    if seed % 3 == 1 and 'ndn.encoding' in __import__('sys').modules:
+        try:
+            from ndn.encoding import Name, Component
+            mine = []
+            if isinstance(obj, str):
+                mine += [Name.from_str(obj), Name.normalize(obj)]
+            elif isinstance(obj, (bytes, bytearray, memoryview)):
+                mine += [Name.from_bytes(bytes(obj)), Name.normalize(bytes(obj))]
+            elif isinstance(obj, (list, tuple)):
+                mine += [Name.normalize(list(obj))[:]]
+                mine += [Component.from_str(Component.escape_str(x)) for x in obj if isinstance(x, str)]
+            given = {id(x) for x in obj} if isinstance(obj, (list, tuple)) else set()
+            given.add(id(obj))
+            for m in mine:
+                # (only what the helpers CREATED: normalize() passes binary components through - those are still the
+                # objects about to be handed over)
+                for x in (m if isinstance(m, list) else [m]):
+                    if id(x) not in given and isinstance(x, (bytearray, memoryview)):
+                        scribble_returned(x)
+        except Exception:     # noqa - the caller's private use of the helpers is not what this case is about
+            pass
+    return obj
+
+
+def _name_in_form(comps, form, seed=0):
     import random
     comps = [bytes(c) for c in comps]
     if form in (None, 'comps'):
